@@ -49,6 +49,11 @@ COMMON = [
     (f"fld:x{h('f1')}:f64:0000000000000000", 'field("f1", 0.0_f64)'),
     (f"fld:x{h('f1')}:f64:8000000000000000", 'field("f1", -0.0_f64)'),
     (f"fld:x{h('f1')}:f64:7ff8000000000000", 'field("f1", f64::NAN)'),
+    # arbitrary predicates in the one-element-array form
+    ("lvc:warn", "level([eq(Level::WARN)])"),
+    ("lvc:error", "level([eq(Level::ERROR)])"),
+    (f"fld:x{h('f0')}:cint:1", 'field("f0", [function(|v: &TracedValue| v.as_int() == Some(1))])'),
+    (f"fld:x{h('f0')}:cuint:1", 'field("f0", [function(|v: &TracedValue| v.as_uint() == Some(1))])'),
 ]
 SPAN_ONLY = [
     (f"name:eq:x{h('r#type')}", 'name(eq("r#type"))'),
@@ -107,9 +112,10 @@ def emit(fn, item, entries):
 root = Path(__file__).resolve().parent.parent
 src = """//! GENERATED by bin/gen_pred_table.py — predicate instances for the `pred` suite.
 #![allow(clippy::all)]
-use predicates::{ord::{eq, gt, lt}, str::starts_with, Predicate};
+use predicates::{function::function, ord::{eq, gt, lt}, str::starts_with, Predicate};
 use tracing_capture::{predicates::{ancestor, field, level, message, name, parent, target, value}, CapturedEvent, CapturedSpan};
 use tracing_core::{Level, LevelFilter};
+use tracing_tunnel::TracedValue;
 
 """
 src += emit("span_preds", "CapturedSpan", table(COMMON + SPAN_ONLY, 1))
